@@ -352,6 +352,7 @@ struct E5 : Engine {
 		catch(std::exception const &e){ res.fail("harness-or-library-exception",std::string("unexpected exception: ") + e.what()); }
 		res.hash = simk::trace_hash() ^ runner::fnv(std::to_string(cnt["loads_accepted"]) + ":" + std::to_string(cnt["loads_live"]) + ":" + std::to_string(cnt["loads_empty"]));
 		res.counters["file_short_io"] = (long long)simk::stats().file_short; res.counters["file_eintr"] = (long long)simk::stats().file_eintr; res.counters["clock_jumps"] = (long long)simk::stats().clock_jumps; res.counters["thread_switches"] = (long long)simk::stats().switches; res.counters["mutex_contended"] = (long long)simk::stats().mutex_contended;
+		res.counters["sim_seconds"] = (long long)((simk::now_us() - sp.start_time_s*1000000LL)/1000000);
 		simk::end();
 		for(auto &kv:cnt) res.counters[kv.first] = (long long)kv.second;
 		bool nontrivial = plan.gets("prop") == "C05" ? (cnt["loads_accepted"] > 0 && cnt["loads_rejected"] > 0) : (cnt["loads_live"] > 0 && cnt["requests"] >= 3 && cnt["ticks"] > 0);
